@@ -61,6 +61,55 @@ def values(depth=3, width=4, hostile=False):
     )
 
 
+def build_shared(spec, memo):
+    """like build, but identical mutable-container sub-specs become ONE object referenced from every position where the
+    spec occurs (an acyclic value with aliasing: `[row] * 3`, `{"a": rec, "b": rec}`); memo may be shared by several
+    top-level values"""
+    k = spec[0]
+    if k in ("list", "dict", "ddict"):
+        key = repr(spec)
+        if key in memo:
+            return memo[key]
+    if k == "list":
+        v = [build_shared(e, memo) for e in spec[1]]
+    elif k == "tuple":
+        return tuple(build_shared(e, memo) for e in spec[1])
+    elif k == "dict":
+        v = {build_shared(a, memo): build_shared(b, memo) for a, b in spec[1]}
+    elif k == "ddict":
+        v = collections.defaultdict(list)
+        for a, b in spec[1]:
+            v[build_shared(a, memo)] = build_shared(b, memo)
+    else:
+        return build(spec)
+    memo[repr(spec)] = v
+    return v
+
+
+def has_repeated_container(specs):
+    """some mutable-container sub-spec occurs at two positions (then build_shared really aliases something)"""
+    seen = set()
+    found = [False]
+
+    def walk(s):
+        if s[0] in ("list", "dict", "ddict"):
+            key = repr(s)
+            if key in seen:
+                found[0] = True
+            seen.add(key)
+        if s[0] in ("list", "tuple", "set"):
+            for e in s[1]:
+                walk(e)
+        elif s[0] in ("dict", "ddict"):
+            for a, b in s[1]:
+                walk(a)
+                walk(b)
+
+    for s in specs:
+        walk(s)
+    return found[0]
+
+
 def build(spec):
     k = spec[0]
     if k == "lit":
@@ -134,6 +183,21 @@ def shape_of(spec):
     return k + ":" + str(spec[1]) if k != "lit" else "lit:" + type(spec[1]).__name__
 
 
+def _repeat(p):
+    x, how = p
+    if how == "list2":
+        return ["list", [x, x]]
+    if how == "list3":
+        return ["list", [x, x, x]]
+    if how == "tuple2":
+        return ["tuple", [x, x]]
+    if how == "dict2":
+        return ["dict", [[lit("a"), x], [lit("b"), x]]]
+    if how == "pairs":
+        return ["list", [["tuple", [x, lit(1)]], ["tuple", [x, lit("s")]]]]
+    return ["list", [["list", [x]], x]]
+
+
 PROFILES = ["free", "strdicts", "lists", "tuples", "mixed1", "lists_of_strdicts", "sets", "nested_strdicts", "same"]
 
 
@@ -174,6 +238,8 @@ def shaped_multiset(depth=2, hostile=False, max_size=5):
         st.lists(sets, min_size=1, max_size=4),
         st.lists(sd_small, min_size=2, max_size=max_size),
         st.tuples(sub, st.integers(2, 4)).map(lambda p: [p[0]] * p[1]),
+        # the same container sub-spec at sibling positions (built as one shared object by build_shared)
+        st.lists(st.tuples(st.one_of(lst, sd, sd_small, recs), st.sampled_from(["list2", "list3", "tuple2", "dict2", "pairs", "nested"])).map(_repeat), min_size=1, max_size=3),
     )
 
 
